@@ -258,7 +258,7 @@ h_data.must_cover = ["reached"]
 # ------------------------------------------------------------------------------------------------
 # build(): loop contract over a record list of symbolic length
 
-@harness(["C06", "C07"], "tcp_out.build", functions=[OB + ".build"], cases=[(False,), (True,)])
+@harness(["C06", "C07", "C08", "C13"], "tcp_out.build", functions=[OB + ".build"], cases=[(False,), (True,)])
 def h_build(c, ipv6):
     """for ANY list of exportable records (each with >= 1 carrying packet - established by the framing contract -
     and a plaintext): build() raises nothing; the synthetic handshake is emitted exactly when the first record of a
